@@ -85,7 +85,7 @@ def obligations(tier, seed):
                             grid.append((kind, o))
         for sid in SHAPES:
             for n, (kind, opts) in enumerate(grid):
-                if (sid in ("p1_int_d", "p2_plain_then_d", "p1_kwargs", "p1_ret_d") and n % 2 == 0) or n % 9 == (sum(map(ord, sid)) % 9):
+                if (sid in ("p1_int_d", "p2_plain_then_d", "p1_kwargs", "p1_ret_d") and n % 2 == 0) or n % 12 == (sum(map(ord, sid)) % 12):
                     obs.append(mk_ob("rt", "rt", kind, sid, opts, tier, funcs=FUNCS, pl=2, dr=2, timeout=600))
         for sid in ("p1_int_d", "p1_str_s", "p1_kwargs", "p2_plain_then_d"):
             obs.append(mk_ob("text", "rt", "function", sid, GRID_Q[0][1], tier, extra=", text=True", kind="F", fixed={"p": "the a b"}, str_alpha="STR_T", funcs=FUNCS))
